@@ -47,6 +47,12 @@ Oracles (none of them looks at the code under test):
   state left behind in a long-lived worker by an earlier case cannot hide a defect); differential oracle: plan and
   warped image are identical to those obtained for the same pair before the history (judged when the clauses held
   before the history, i.e. relative to a sound baseline).
+* concurrent calls (``warp-threads`` slice, E3a / vf.sched): two threads each make the nearest-warp call of the image
+  clause (pixel types int8 / bool / uint8 / float32 per thread, destinations on the same grid / of the same shape on
+  another grid / of another shape, different source images, module state of warp.py as imported or after both calls were
+  made once); every line of odc/geo/warp.py is a scheduling point, all schedules within preemption bound 2 (thorough: 3
+  for four pairs) are executed.  Oracle: each thread's image equals the image of the same call made alone (computed
+  once outside the scheduler) and the pasted image.
 """
 from __future__ import annotations
 
@@ -659,6 +665,233 @@ def run_history(case):
 
 
 # ---------------------------------------------------------------------------------------------
+# E3a: two warp calls at the same time (thread interleavings)
+# ---------------------------------------------------------------------------------------------
+import threading  # noqa: E402
+
+import odc.geo.warp as warpmod  # noqa: E402
+from vf import core, introspect  # noqa: E402
+
+_WARP_PRISTINE = introspect.ModuleState(warpmod)  # taken when this module is imported, before any case has run
+_PLAIN = (type(None), bool, int, float, complex, str, bytes, tuple, frozenset, np.ndarray, bytearray)
+_WARP_GLOBALS = {k: v for k, v in vars(warpmod).items()
+                 if k.startswith("_") and not k.startswith("__") and isinstance(v, _PLAIN)}
+_WARP_NAMES = frozenset(vars(warpmod))
+_LOCK_TYPES = (type(threading.Lock()), type(threading.RLock()))
+
+
+def _reset_warp_state():
+    """Put the module-level state of odc/geo/warp.py back to what it was when the harness imported it: private mappings,
+    lists, sets and holder objects (vf.introspect.ModuleState), and in addition private names bound to plain values
+    (None / numbers / strings / arrays) are re-bound to the object they were bound to, and private plain-valued names
+    that did not exist then (a lazily created work array) are removed.  With this every execution of one schedule
+    exploration starts from the same state, so a replayed schedule prefix meets the same sequence of lines."""
+    _WARP_PRISTINE.restore()
+    g = vars(warpmod)
+    for k, v in _WARP_GLOBALS.items():
+        if g.get(k, g) is not v:
+            g[k] = v
+    for k in [k for k in g if k not in _WARP_NAMES and k.startswith("_") and not k.startswith("__")
+              and isinstance(g[k], _PLAIN)]:
+        del g[k]
+
+
+def _fake_locks(s):
+    """module-level real locks of warp.py (there are none in the tree as it is) would hang the baton scheduler: they are
+    replaced by cooperative re-entrant ones for the duration of one execution. -> undo list"""
+    from vf import sched  # pylint: disable=import-outside-toplevel
+
+    class FakeRLock(sched.FakeLock):
+        depth = 0
+
+        def acquire(self, blocking=True, timeout=-1):
+            if self.owner is not None and self.owner is self.sched.me():
+                self.depth += 1
+                return True
+            ok = super().acquire(blocking, timeout)
+            if ok:
+                self.depth = 1
+            return ok
+
+        def release(self):
+            self.depth -= 1
+            if self.depth <= 0:
+                super().release()
+
+    undo = []
+    for k, v in list(vars(warpmod).items()):
+        if isinstance(v, _LOCK_TYPES):
+            undo.append((k, v))
+            setattr(warpmod, k, FakeRLock(s, k))
+    return undo
+
+
+THR_DTYPES = ("int8", "bool", "uint8", "float32")
+THR_RELS = ("same-grid", "same-shape", "other-shape")
+THR_PRIOR = ("cold", "warm")
+# thread 0 always warps onto this pair (destination larger than the source on every side, residue within ttol)
+_THR_A = ("D-utm10", "same", (8, 9), (1, "0"), (1, "0"), (1, 1), "none", (-1, -1), _T9, 0)
+_THR_B = {
+    "same-grid": _THR_A,  # the very same pair of grids, another image
+    "same-shape": ("D-utm10", "same", (8, 9), (1, "0"), (1, "0"), (-1, -1), "none", (2, -3), _Z2, 0),
+    "other-shape": ("D-utm10", "same", (5, 5), (1, "0"), (1, "0"), (-1, -1), "none", (3, -2), _Z2, 0),
+}
+for _dt in THR_DTYPES:  # thread 1 warps the raster of thread 0 turned by 180 degrees: must be another image
+    assert not np.array_equal(RASTERS[_dt][0], RASTERS[_dt][0][::-1, ::-1], equal_nan=_dt.startswith("f"))
+
+
+def gen_threads(tier):
+    th = tier == "thorough"
+
+    def gen():
+        def parts(dta, dtb, rel, prior, bound, n):
+            for k in range(n):
+                yield (dta, dtb, rel, prior, bound, k, n)
+
+        if not th:
+            # both calls of the same pixel type, and the two detour types against each other
+            pairs = tuple((d, d) for d in THR_DTYPES) + (("int8", "bool"),)
+            for (dta, dtb), rel in itertools.product(pairs, ("same-shape", "other-shape")):
+                yield from parts(dta, dtb, rel, "cold", 2, 4)
+            return
+        for dta, dtb, rel, prior in itertools.product(THR_DTYPES, THR_DTYPES, THR_RELS, THR_PRIOR):
+            yield from parts(dta, dtb, rel, prior, 2, 4)
+        for (dta, dtb), prior in itertools.product((("int8", "int8"), ("bool", "bool"), ("int8", "bool"), ("uint8", "uint8")),
+                                                   ("cold",)):
+            yield from parts(dta, dtb, "same-shape", prior, 3, 32)
+
+    return gen
+
+
+def _thr_job(base, dt, turned):
+    """-> None when the plan does not offer a paste with read_shrink 1, else the ingredients of one thread's call"""
+    case = base + (dt,)
+    b = build(case)
+    rr = compute_reproject_roi(b["src_g"], b["dst_g"], **b["kw"])
+    src, nodata, fill, junk = raster(dt, b["src_shape"])
+    if turned:
+        src = src[::-1, ::-1].copy()
+    if not (rr.paste_ok and rr.read_shrink == 1):
+        return None
+    dshape = case[2]
+    expect = np.full(dshape, fill, dtype=src.dtype)
+    block = src[rr.roi_src]
+    if b["my"] < 0:
+        block = block[::-1, :]
+    if b["mx"] < 0:
+        block = block[:, ::-1]
+    if block.shape == expect[rr.roi_dst].shape:
+        expect[rr.roi_dst] = block
+    else:
+        expect = None  # reported by the single-call slices
+    return dict(case=case, b=b, rr=rr, src=src, src0=src.copy(), nodata=nodata, junk=junk, dshape=dshape, expect=expect,
+                desc=describe(case, b, rr) + (" [source raster turned by 180 degrees]" if turned else ""))
+
+
+def _thr_call(j):
+    dst = np.full(j["dshape"], j["junk"], dtype=j["src"].dtype)
+    return rio_reproject(j["src"], dst, j["b"]["src_g"], j["b"]["dst_g"], resampling="nearest", dst_nodata=j["nodata"])
+
+
+def run_threads(case):
+    """Two threads each make the standard nearest-neighbour warp call of the image clause (own source image, own
+    destination array) at the same time; every line of odc/geo/warp.py is a scheduling point (the GDAL call itself is
+    one step); all schedules within the preemption bound.  Each thread's image must equal the image of the same call
+    made alone, and the pasted image."""
+    from vf import sched  # pylint: disable=import-outside-toplevel
+
+    dta, dtb, rel, prior, bound, part_k, part_n = case
+    jobs = (_thr_job(_THR_A, dta, False), _thr_job(_THR_B[rel], dtb, True))
+    pcls = "same-dtype" if dta == dtb else "mixed-dtypes"
+    r = R(outcome=f"threads|{pcls}|{rel}|{prior}|bound{bound}", nontrivial=True)
+    if jobs[0] is None or jobs[1] is None:
+        r.outcome, r.nontrivial = f"threads|no-paste|{rel}", False
+        r.counts = {"eligible-but-not-reported": 1}
+        return r
+
+    # each call alone (one after the other, from the import-time state of warp.py)
+    alone = []
+    for k, j in enumerate(jobs):
+        _reset_warp_state()
+        a = _thr_call(j).copy()
+        alone.append(a)
+        if j["expect"] is not None and not _same_img(a, j["expect"]):
+            r.fail(f"paste!=warp:{j['case'][10]}:threads-baseline:{rel}",
+                   f"one call, no other thread: paste={j['expect'].tolist()} warp={a.tolist()}: {j['desc']}")
+    if r.fails:
+        return r  # no sound baseline for the concurrent runs
+
+    fails = {}
+
+    def make(prefix):
+        s = sched.Sched(prefix, [warpmod.__file__])
+        _reset_warp_state()
+        if prior == "warm":  # both calls have been made before, one after the other
+            for j in jobs:
+                _thr_call(j)
+        res = {}
+
+        def body(k):
+            def run():
+                res[k] = _thr_call(jobs[k])
+            return run
+
+        s.spawn(body(0), "t0")
+        s.spawn(body(1), "t1")
+        undo = _fake_locks(s)
+        try:
+            s.run()
+        finally:
+            for name, lk in undo:
+                setattr(warpmod, name, lk)
+        s.res = res
+        return s
+
+    def check(x):
+        for name, err in x.errors():
+            if not core.in_repo_tb(err):
+                raise err
+            fails.setdefault(f"threads:raised:{type(err).__name__}@{core.raise_site(err)}:{pcls}:{rel}",
+                             f"{case}: thread {name}: {type(err).__name__}: {err}; schedule choices {list(x.choices)}")
+        if x.deadlock or x.livelock:
+            fails.setdefault(f"threads:{'deadlock' if x.deadlock else 'livelock'}:{pcls}:{rel}",
+                             f"{case}: schedule choices {list(x.choices)}")
+            return
+        for k, j in enumerate(jobs):
+            got = x.res.get(k)
+            if got is None:
+                continue  # the thread raised: reported above
+            dt = j["case"][10]
+            if not _same_img(j["src"], j["src0"]):
+                fails.setdefault(f"threads:source-modified:{dt}:{pcls}:{rel}",
+                                 f"{case}: the source array of thread {k} was modified; schedule choices {list(x.choices)}")
+            if _same_img(got, alone[k]) and (j["expect"] is None or _same_img(got, j["expect"])):
+                continue
+            o = jobs[1 - k]
+            hint = ""
+            if got.shape == alone[1 - k].shape and np.array_equal(got.astype("float64"), alone[1 - k].astype("float64"),
+                                                                   equal_nan=True):
+                hint = " (it is the image the OTHER thread asked for)"
+            nbad = int((~((got == alone[k]) | ((got != got) & (alone[k] != alone[k])))).sum()) if got.shape == alone[k].shape else -1
+            fails.setdefault(
+                f"threads:paste!=warp:{dt}:other-thread-{o['case'][10]}:{rel}:{prior}",
+                f"two rio_reproject(..., 'nearest') calls in two threads, schedule choices {list(x.choices)} (0 = keep running, "
+                f"1 = switch thread; scheduling points = lines of warp.py, executed (thread, line): "
+                f"{[(t, lb[1]) for t, lb in x.trace if isinstance(lb, tuple)]}): thread {k} got {got.tolist()} where the same "
+                f"call made alone gives {alone[k].tolist()} (= the pasted image), {nbad} of {got.size} pixels differ{hint}; "
+                f"thread {k}: {j['desc']}; thread {1 - k}: {o['desc']}")
+
+    try:
+        st = sched.explore(make, check, bound, part=(part_k, part_n))
+    finally:
+        _reset_warp_state()
+    r.counts = dict(schedules=st.schedules, transitions=st.points, warps=2 * st.schedules)
+    for k, m in fails.items():
+        r.fail(k, m)
+    return r
+
+
+# ---------------------------------------------------------------------------------------------
 # spaces
 # ---------------------------------------------------------------------------------------------
 def _pairs(vals):
@@ -912,6 +1145,12 @@ NOTES = {
                     "disjoint} + a non-paste-able pair + a read_shrink 2 pair; every sequence of 2 prior calls over the bilinear "
                     "warp calls + planner calls (thorough: all calls) x reduced comparisons; clauses judged before and after the "
                     "history, plan and warped image compared before vs after",
+    "warp-threads": "E3a: two threads make the nearest-warp call of the image clause at the same time (own source image, own "
+                    "destination): pixel types {int8, bool, uint8, float32} per thread x destinations {same grid, same shape on "
+                    "another grid, another shape} x module state {import-time, both calls made before}; every line of warp.py "
+                    "a scheduling point, ALL schedules within preemption bound 2 (quick: equal types + int8/bool, 2 relations, "
+                    "cold; thorough: full product, and bound 3 for 4 same-shape pairs); each thread's image == the same call "
+                    "made alone == the pasted image",
     "shrink": "integer scale 2,3,4 (read_shrink > 1), placements in overview pixels as in paste-image: "
               "roi_src == read_shrink * image(roi_dst)",
 }
@@ -921,7 +1160,8 @@ def slices(tier):
     sp = space(tier)
     return [e1.Slice(name, _gen(spec), run_case, NOTES[name]) for name, spec in sp.items()] + [
         e1.Slice("window-edges", gen_edges(tier), run_case, NOTES["window-edges"]),
-        e1.Slice("call-history", gen_history(tier), run_history, NOTES["call-history"])]
+        e1.Slice("call-history", gen_history(tier), run_history, NOTES["call-history"]),
+        e1.Slice("warp-threads", gen_threads(tier), run_threads, NOTES["warp-threads"], setup=_reset_warp_state)]
 
 
 def _count(products):
@@ -956,7 +1196,8 @@ def main(ctx):
         "rotations": ROTS, "dtypes": DTYPES, "padding": PADDINGS, "align": ALIGNS,
         "cases_per_slice": dict({k: _count(v) for k, v in sp.items()},
                                 **{"window-edges": sum(1 for _ in gen_edges(ctx.tier)()),
-                                   "call-history": sum(1 for _ in gen_history(ctx.tier)())}),
+                                   "call-history": sum(1 for _ in gen_history(ctx.tier)()),
+                                   "warp-threads": sum(1 for _ in gen_threads(ctx.tier)())}),
         "crs_pairs": {"definitions": dict(CRS_DEFS, **{"wkt:<name>": "the same definition spelled as WKT (laea-a, moll)"}),
                       "projected": CRS_NAMES_M, "geographic": CRS_NAMES_G,
                       "grids": {k: list(v)[:6] for k, v in XGRIDS.items()}, "epsg_read_before_planning": EPSG_READ},
@@ -964,6 +1205,10 @@ def main(ctx):
                          "x option set", "option_sets": {k: {a: repr(b) for a, b in v.items()} for k, v in OPTSETS.items()},
                          "planner_calls": PLAN_CALLS,
                          "length_2_alphabet": "all calls (thorough); bilinear warp calls + planner calls (quick)"},
+        "warp_threads": {"threads": 2, "scheduling_points": "every line event of odc/geo/warp.py (about 50 per call); the GDAL "
+                         "call is one step", "preemption_bound": "2 (quick); 2 for the full product and 3 for 4 same-shape pairs "
+                         "(thorough)", "dtypes_per_thread": THR_DTYPES, "destination_relations": THR_RELS, "module_state": THR_PRIOR,
+                         "case": "(dtype thread 0, dtype thread 1, relation, state, bound, k, n): part k of n of the schedule tree"},
         "window_edges": {"f": EDGE_F, "source_axis_px": EDGE_N + (2000,), "placements": PLACES, "other_axis": (OTHER_LEN, 3)},
     }
     ctx.assumptions = [
@@ -998,6 +1243,12 @@ def main(ctx):
         "long-lived worker processes, which is sound because the clauses are demanded in every state (a failure seen "
         "BEFORE the history of a case is reported under 'state-left-by-earlier-calls:' with the list of option classes "
         "the process has executed so far)",
+        "warp-threads: the image clause is demanded of every call whatever other calls are in progress in other threads of "
+        "the process (rio_reproject is what a threaded dask scheduler runs for the chunks of one image); each thread has its "
+        "own source and destination arrays, nothing is shared by the harness; only one thread runs at a time (baton), the "
+        "switch points are the line events of warp.py, so races inside GDAL or inside other modules are not explored; the "
+        "module-level state of warp.py is put back to its import-time snapshot before every execution; a module-level "
+        "threading.Lock/RLock of warp.py would be replaced by a cooperative one (none exists)",
         "padding/align options: the clauses are conditional on what the returned plan says (paste_ok, read_shrink), "
         "whatever options it was requested with; whether paste is offered at all under explicit padding/align is not "
         "judged (the code documents that it is offered only for padding in (None,0) and align in (None,0))",
